@@ -105,7 +105,7 @@ def kill_case(case, root):
                 os._exit(3)
 
             trig = inj if inj[0] != 'line' else None
-            st = W.WrapStorage(LocalStorage(sd), trigger=trig, action=lambda s, p: die(s, dict(point=list(p))))
+            st = W.WrapStorage(LocalStorage(sd), trigger=trig, action=lambda s, p: die(s, dict(point=list(p))), root=sd)
             tracer = None
             if inj[0] == 'line':
                 tracer = W.LineTracer(st, target=inj[1], action=lambda info: die(st, dict(line_info=info)))
